@@ -144,7 +144,8 @@ func listWithPayload(r *Rng, n int) any {
 
 func init() {
 	register(&Suite{
-		Prop: "C06",
+		Prop:     "C06",
+		Parallel: true,
 		Gen: func(c *Ctx) {
 			r := c.R
 			nTrees, nMut, nRand, maxStr := 1500, 4000, 3000, 1<<17
